@@ -260,13 +260,20 @@ func c03Body(c *run.Ctx) {
 				break
 			}
 		}
+		newID2 := ""
+		for k := 0; k < 25; k++ {
+			if _, ok := model.seat[sim.PlayerID(k)]; !ok && sim.PlayerID(k) != newID {
+				newID2 = sim.PlayerID(k)
+				break
+			}
+		}
 		pick := func(label string) string { return ids[c.Ch.Int(label, 0, len(ids)-1)] }
 		var op *sim.OpRec
 		expectErr := false
 		vacatedTarget := false
 		// apply on success
 		var onOK func()
-		kind := choose.Weighted(c.Ch, "op", []int{8, 3, 4, 2, 5, 3, 4, 2, 2, 2, 2, 2, 2, 3, 2, 2, 2})
+		kind := choose.Weighted(c.Ch, "op", []int{8, 3, 4, 2, 5, 3, 4, 2, 2, 2, 2, 2, 2, 3, 2, 2, 2, 3, 2})
 		switch kind {
 		case 0: // reserve fixed free seat
 			if len(free) == 0 {
@@ -451,6 +458,39 @@ func c03Body(c *run.Ctx) {
 			}
 			op = s.Update(joins, nil, "err_batch_overflow")
 			expectErr = true
+		case 17: // batch: a random-seat member plus a fixed-seat member whose seat is taken / out of range
+			if len(ids) == 0 || len(free) < 2 {
+				continue
+			}
+			bad := model.seat[pick("who")]
+			if choose.Chance(c.Ch, "mixrange", 30) {
+				bad = n + 1
+			}
+			joins := []pokertable.JoinPlayer{{PlayerID: newID, RedeemChips: 100, Seat: -1}, {PlayerID: newID2, RedeemChips: 100, Seat: bad}}
+			if choose.Chance(c.Ch, "mixorder", 50) {
+				joins[0], joins[1] = joins[1], joins[0]
+			}
+			op = s.Update(joins, nil, "err_mixed_random_fixed")
+			expectErr = true
+		case 18: // batch: valid mixed random + fixed members
+			if len(free) < 2 {
+				continue
+			}
+			{
+				id2 := newID2
+				joins := []pokertable.JoinPlayer{{PlayerID: newID, RedeemChips: 100, Seat: -1}, {PlayerID: id2, RedeemChips: 100, Seat: free[c.Ch.Int("seat", 0, len(free)-1)]}}
+				op = s.Update(joins, nil, "valid_mixed_random_fixed")
+				onOK = func() {
+					now := s.Now()
+					for _, j := range joins {
+						if p := sim.FindPlayer(now, j.PlayerID); p != nil {
+							model.seat[j.PlayerID] = p.Seat
+							delete(model.freed, p.Seat)
+						}
+					}
+					labels["random_seat"] = true
+				}
+			}
 		case 16: // duplicate id in a leave list
 			if len(ids) == 0 {
 				continue
